@@ -1,18 +1,13 @@
 #!/bin/bash
-# seedbatch.sh: run every pending seed (seeded/_pending/<P>/<i>) through seedtest.sh with the checks that could see it
+# seedbatch.sh: run the pending seeds listed in tools/seedplan.txt (<P>/<i> <checks...>) through seedtest.sh
 cd /verif
-for d in seeded/_pending/*/*/; do
-  P=$(basename $(dirname $d)); I=$(basename $d)
-  [ -n "$ONLY" ] && ! echo "$P/$I" | grep -qE "$ONLY" && continue
+while read -r SEED PIDS; do
+  [ -z "$SEED" ] && continue
+  [ -n "$ONLY" ] && ! echo "$SEED" | grep -qE "$ONLY" && continue
+  d=seeded/_pending/$SEED
   dest=$(grep -m1 -oE "^package [a-z]+" $d/demo_test.go | awk '{print $2}')
   if [ "$dest" = "xsync" ]; then DEST=internal/xsync; else DEST=.; fi
   RUN=$(grep -oE "func (Test[A-Za-z0-9_]+)" $d/demo_test.go | awk '{print $2}' | paste -sd'|')
-  files=$(grep -E "^\+\+\+ " $d/patch.diff | tr '\n' ' ')
-  case "$files" in
-    *internal/xsync*) PIDS="$P C03 C04 C05 C08 C10 C11 C13 C14 C16 C07";;
-    *) PIDS="$P C01 C02 C05 C06 C07 C09 C13 C14 C15 C16";;
-  esac
-  PIDS=$(echo $PIDS | tr ' ' '\n' | awk '!s[$0]++' | tr '\n' ' ')
-  echo "=== $P/$I dest=$DEST run=$RUN pids=$PIDS"
-  tools/seedtest.sh /verif/$d $DEST "$RUN" $PIDS
-done
+  echo "=== $SEED dest=$DEST run=$RUN pids=$PIDS"
+  tools/seedtest.sh /verif/$d $DEST "$RUN" $PIDS </dev/null
+done < tools/seedplan.txt
